@@ -432,7 +432,14 @@ def run_simulation(
         run.loop_guard = True
         run.exception = e
     except Exception as e:
+        if type(e).__module__.startswith("hypothesis") or getattr(t, "dead", False):
+            raise
         run.exception = e
+    if getattr(t, "dead", False):
+        # the example was abandoned by Hypothesis while the tuner was unwinding
+        if getattr(t, "stop_exc", None) is not None:
+            raise t.stop_exc
+        raise HarnessError("tape died without StopTest")
     run.rec = rec
     run.events = rec.events
     run.tuner = tuner
